@@ -153,8 +153,8 @@ fn canon_case(src: &mut Src, rep: &mut Report) -> Result<(), Failure> {
     if let Some(a) = afters.iter().max() {
         world.lock_time = *a;
     }
-    if let Some(o) = olders.iter().max() {
-        world.sequence = *o;
+    if let Some(o) = gen::sequence_meeting(&olders) {
+        world.sequence = o;
     }
     let (sat, checker) = crate::world::sign_symbolic(&world, &ecdsa, &leafk, None);
     let leaf = unit.leaf;
@@ -171,7 +171,7 @@ fn canon_case(src: &mut Src, rep: &mut Report) -> Result<(), Failure> {
             None => sat.ecdsa.get(kb).map(|s| s.to_vec()),
         }
     };
-    let env = canon::Env { ctx, sig: &sigf, cap: 24 };
+    let env = canon::Env { ctx, sig: &sigf, cap: 24, pkh_dissat: true };
     let sd = match canon::canon(&node, &env) {
         Some(x) => x,
         None => {
